@@ -129,7 +129,7 @@ func (m *MTree) replace(s Site, n *refcbor.Item) {
 }
 
 var structFaultKinds = []string{"rewidth", "typeswap", "elemswap", "bucketmove", "dupkey", "nilswap", "tagwrap", "untag", "indef",
-	"keyreorder", "unprot-edit", "arity", "emptybstr", "intedit", "strgrow"}
+	"keyreorder", "unprot-edit", "arity", "emptybstr", "intedit", "strgrow", "param-inject"}
 
 func pickSite(t *tape.Tape, sites []Site, ok func(Site) bool) (Site, bool) {
 	var cand []int
@@ -379,6 +379,79 @@ func StructFault(t *tape.Tape, in []byte, kind string) (out []byte, applied stri
 		default:
 			i := t.Choose(len(um.Elems)/2, "structfault.i")
 			um.Elems[2*i+1] = genValue(t, 2)
+		}
+	case "param-inject":
+		// add a registered header parameter (mostly with a value of the right
+		// type) to the protected or unprotected map of some layer: this is
+		// what produces IV in one bucket and Partial IV in the other, crit
+		// outside the protected bucket, a countersignature in the protected
+		// bucket, a second alg ...
+		type bucket struct {
+			m         *refcbor.Item
+			protected bool
+			sigobj    *refcbor.Item // a COSE_Signature-shaped sibling to clone as countersignature value
+		}
+		var buckets []bucket
+		var anySig *refcbor.Item
+		for _, s := range sites {
+			if s.It.Major == refcbor.MArray && (len(s.It.Elems) == 3 || len(s.It.Elems) == 4) &&
+				s.It.Elems[0].Major == refcbor.MBstr && s.It.Elems[1].Major == refcbor.MMap {
+				if len(s.It.Elems) == 3 && anySig == nil {
+					anySig = s.It
+				}
+				buckets = append(buckets, bucket{m: s.It.Elems[1]})
+				for _, w := range m.wraps {
+					if w.bstr == s.It.Elems[0] {
+						buckets = append(buckets, bucket{m: w.inner, protected: true})
+					}
+				}
+			}
+		}
+		if len(buckets) == 0 {
+			return nil, "", false
+		}
+		b := buckets[t.Choose(len(buckets), "structfault.bucket")]
+		labels := []int64{1, 2, 3, 4, 5, 6, 7, 9, 11, 12, 16, 5, 6}
+		lbl := labels[t.Choose(len(labels), "structfault.label")]
+		var val *refcbor.Item
+		if t.Bool(1, 4, "structfault.param.wrongtype") {
+			val = replacementItem(t, refcbor.Nil())
+		} else {
+			switch lbl {
+			case 1:
+				val = refcbor.Int([]int64{-7, -8, -35, -37}[t.Choose(4, "structfault.alg")])
+			case 2:
+				// crit naming a label of the same map when there is one
+				if len(b.m.Elems) >= 2 {
+					val = refcbor.Array(b.m.Elems[2*t.Choose(len(b.m.Elems)/2, "structfault.critlabel")].Clone())
+				} else {
+					val = refcbor.Array(refcbor.Int(4))
+				}
+			case 3, 16:
+				val = genContentType(t)
+			case 7, 11:
+				if anySig != nil {
+					val = anySig.Clone()
+				} else {
+					val = refcbor.Array(refcbor.Bstr(nil), refcbor.Map(), refcbor.Bstr([]byte{1, 2, 3}))
+				}
+				if t.Bool(1, 3, "structfault.csiglist") {
+					val = refcbor.Array(val)
+				}
+			default:
+				val = refcbor.Bstr(t.Bytes(1+t.Choose(8, "structfault.param.n"), "structfault.param"))
+			}
+		}
+		// replace an existing entry with that label, or add one
+		replaced := false
+		for i := 0; i+1 < len(b.m.Elems); i += 2 {
+			if v, ok := b.m.Elems[i].Int64(); ok && b.m.Elems[i].IsInt() && v == lbl {
+				b.m.Elems[i+1] = val
+				replaced = true
+			}
+		}
+		if !replaced {
+			b.m.Elems = append(b.m.Elems, refcbor.Int(lbl), val)
 		}
 	case "arity":
 		s, found := pickSite(t, sites, func(s Site) bool { return isContainer(s.It) })
